@@ -41,6 +41,18 @@ CHECKS = {
  "C19": dict(level="exploration", design="5/C19", technique="external-validator monitor: python jsonschema Draft-07 validation of serialised registries against schemars::schema_for!(PortableRegistry)",
    text="The schema is generated by the real code built with the schema feature, checked with check_schema, and every serialised RegGen registry (all definition kinds, absent/present/empty optional parts, null skipped parameter, u32::MAX ids, index 255, hostile strings) is validated by an independent validator.",
    note="Trusted: python jsonschema 4.26."),
+ "C13": dict(level="exploration", design="5/C13", technique="compiler-event monitor: generated positive programs compiled one by one against the rlib built from /repo (rustc JSON diagnostics as event log), accepted programs linked and run to observe type_info() of each instantiation",
+   text="Each generated generic definition of the supported grammar (direct / container / PhantomData / associated-type / self-referential uses; lifetimes, const parameters, defaults, where clauses, bounds(..), skip_type_params, codec skip / compact / encoded_as members; four shapes each; seeded combinations) must compile and be usable for instantiations that deliberately use types WITHOUT TypeInfo for skipped parameters and skipped members; running the accepted programs must show the declared Some/None parameter pattern.",
+   note="The code under test (the proc-macro) runs inside rustc; the oracle is offline over recorded compiler runs. A probe program separates 'nothing builds' (inconclusive) from 'this program is rejected' (violation)."),
+ "C15": dict(level="exploration", design="5/C15", technique="configuration-matrix monitor: per-feature-set fingerprints (registry bytes, and bytes with docs cleared) printed by a binary that forwards features to scale-info, compared offline",
+   text="The fixed corpus (all built-in type expressions + this seed's generated definitions + hand-written types) is registered in a fixed order by a binary built once per feature set (quick: 8 sets; thorough: all 48 effectively distinct sets over std/serde/decode/bit-vec/schema/docs); all docs-off sets must give identical bytes, all docs-on sets identical bytes, and the docs-stripped bytes must be identical across every set; the BitVec part is compared across the sets enabling bit-vec.",
+   note="No no_std target is installed: 'no_std' means scale-info and the codec compiled without `std` inside a hosted binary."),
+ "C17": dict(level="exploration", design="5/C17", technique="argument-list model monitor over random builder scripts in both forms under two builds (docs off/on), plus a PhantomData erasure scan over every definition reachable from the corpus",
+   text="Random scripts drive TypeBuilder / Fields / FieldBuilder / Variants / VariantBuilder and the plain constructors with varying legal setter orders in portable form (runtime strings/ids) and compile-time form (member types from a fixed set incl. PhantomData instantiations and a compact member); the built Type must equal the supplied arguments element by element, minus PhantomData members, with docs kept per setter kind and feature. All definitions reachable from ~480 corpus types are scanned for a PhantomData listed as field or tuple element.",
+   note="Each setter at most once per builder; wrappers of PhantomData are asserted neither way."),
+ "C20": dict(level="exploration", design="5/C20", technique="compiler-event monitor: an enumerated negative grammar of ill-formed programs, each compiled on its own next to a positive twin; offline oracle over the rustc diagnostics (must be rejected with an error located in the construct)",
+   text="Every public way to obtain each builder typestate (constructors, Type::builder*, Field::builder, Default::default() at every state parameter) x every finisher with one required part missing or of the wrong kind (no path, variant without index, field without type, named among unnamed, unnamed among named; compile-time and portable form), and the container-level derive errors (union, unknown keys, repeated bounds/skip_type_params/capture_docs/crate in one or two attributes, invalid capture_docs values, bounds(..) leaving a parameter unbound). The twin must compile, the negative must not; a negative that compiles is run and its outcome recorded.",
+   note="For the typestate half no scale-info code executes (rustc type-checks the API). Unknown keys on fields/variants are outside the statement."),
 }
 
 NOT_YET = {}
